@@ -220,6 +220,7 @@ func genReconn(r *Rng, prop string) *Scenario {
 	case "C03":
 		cfg.DirectQoS0 = false
 		nreq = int(r.between(2, 12))
+		cfg.AlwaysResub = r.chance(0.3) // re-subscriptions compete with queued requests for the wire
 	case "C08":
 		kindW = []int{2, 5, 4}
 		nreq = int(r.between(1, 8))
@@ -288,11 +289,12 @@ func genReconn(r *Rng, prop string) *Scenario {
 		cfg.OnErrorReenters = r.chance(0.15)
 	}
 	earlyPub := false
-	if (prop == "C01" || prop == "C02" || prop == "C12") && r.chance(0.1) {
-		// single-writer variant with requests: publishes only (nothing inbound, no
-		// keep-alive, every write made by the task goroutine), and the broker's
-		// answer is readable before Transport.Write returns, so the reader
-		// dispatches PUBACK / PUBREC / PUBCOMP before the requester waits for it
+	if (prop == "C01" || prop == "C02" || prop == "C12" || prop == "C03" || prop == "C08") && r.chance(0.1) {
+		// single-writer variant with requests (nothing inbound, no keep-alive,
+		// every write made by the task goroutine), and the broker's answer is
+		// readable before Transport.Write returns, so the reader dispatches
+		// PUBACK / PUBREC / PUBCOMP / SUBACK / UNSUBACK before the requester
+		// waits for it
 		earlyPub = true
 		cfg.EarlyReply = true
 		cfg.Frag, cfg.JitterUs = nil, nil
@@ -301,7 +303,9 @@ func genReconn(r *Rng, prop string) *Scenario {
 			cfg.TimeoutUs = r.pickI(1500, 2500, 4000)
 		}
 		cfg.DirectQoS0, cfg.OnErrorReenters = false, false
-		kindW = []int{1, 0, 0}
+		if prop == "C02" || prop == "C12" {
+			kindW = []int{1, 0, 0}
+		}
 	}
 
 	sc.Ops = append(sc.Ops, Op{AtUs: connectAt, Actor: 0, Kind: "connect"})
@@ -442,7 +446,7 @@ func genReconn(r *Rng, prop string) *Scenario {
 			}
 		}
 	}
-	if (prop == "C08" || prop == "C06") && r.chance(0.5) {
+	if ((prop == "C08" || prop == "C06") && r.chance(0.5)) || (prop == "C03" && r.chance(0.3)) {
 		sc.Faults = append(sc.Faults, Fault{Kind: "sessionLoss", Conn: int(r.between(2, 4))})
 	}
 
@@ -586,6 +590,27 @@ func genReconn(r *Rng, prop string) *Scenario {
 		lastOp = tA
 	}
 
+	if prop == "C08" && r.chance(0.06) {
+		// aimed: the re-subscription requested for connection 2 (session lost) is
+		// still waiting behind a parked task when connection 2 dies and connection
+		// 3 (session present: the empty one connection 2 created) takes over
+		cfg.CleanSession, cfg.AlwaysResub, cfg.EarlyReply = false, false, false
+		cfg.PingIntervalUs, cfg.KeepAliveSec, cfg.ResponseTimeoutUs = 0, 0, 0
+		cfg.Frag, cfg.JitterUs = nil, nil
+		cfg.DirectQoS0, cfg.OnErrorReenters = false, false
+		cfg.ReconnBaseUs, cfg.ReconnMaxUs = 500, 1000
+		cfg.Yields = map[string]int64{"retry.afterTask": r.pickI(2000, 3000)}
+		sc.Ops = []Op{{AtUs: 0, Actor: 0, Kind: "connect"}}
+		nf := int(r.between(1, 3))
+		for j := 0; j < nf; j++ {
+			sc.Ops = append(sc.Ops, Op{AtUs: 1000 + int64(j)*10, Actor: 1, Kind: "subscribe", Subs: []SubReq{{filters[j%len(filters)], byte(r.IntN(3))}}})
+		}
+		cut1 := int64(1000 + nf*(2000+700) + 3000)
+		sc.Ops = append(sc.Ops, Op{AtUs: cut1 + 100, Actor: 1, Kind: "publish", QoS: 1, Topic: "a", Token: "m1"})
+		sc.Faults = []Fault{{Kind: "cutAt", Conn: 1, AtUs: cut1}, {Kind: "sessionLoss", Conn: 2}, {Kind: "cutAfterResp", Conn: 2, N: 0}}
+		lastOp = cut1 + 100
+		maxBackoff = cfg.ReconnMaxUs
+	}
 	// horizon: after the last scenario event plus room for the faults to play out
 	h := lastOp + 6*maxBackoff + 20000
 	for _, f := range sc.Faults {
